@@ -3,11 +3,13 @@ import json
 import os
 import random
 
-from ..gcheck import GFamily, run_batches
+from ..gcheck import GFamily, run_batches, schedule_from_trace, linear_replay
 from .. import tracecheck
+from .. import l2
 from ..families import event as fam
+from ..families import event_l2 as el
 from ..families import eventclients as cfam
-from ..report import ROOT, load_findings
+from ..report import ROOT, load_findings, MachineryError
 
 INVS = ["IrqMeansPendingAndEnabled", "PendingRule", "ClearOnlyByW1C", "StatusShowsRaw", "EnableIsWritten",
         "SharedIrqIsOr", "ReadBack"]
@@ -102,14 +104,154 @@ def run_client_tmode(report, tier, seed):
                              f["clause"], CLIENTS.describe(spec), f["l"]))
 
 
+def _projection_drift(spec, ex):
+    return {"spec": spec, "m": {}, "clause": "Projection (a modelled register was not found by name: %s)" % (ex,),
+            "case": [{}, [], [], {}]}
+
+
+# ----------------------------------------------------------------------------- managers with 3 - 6 sources (T-mode)
+def run_manager_tmode(report, tier, seed, l2state):
+    """cycle-by-cycle runs of the real EventManager(s) + CSRBank(s) netlists with 3 - 6 sources under random legal
+    environments (free trigger waveforms, any CSR operation), judged by the same contract (specs/event/EventTrace.tla).
+    A 3-source manager already has more than 10^6 graph edges, so these sizes are not explored exhaustively on the
+    netlist; the L2 lane adds the exhaustive exploration of the model (M-mode) and the conformance of the model to
+    every cycle recorded here."""
+    rnd = random.Random(seed * 2750159 + 5)
+    ntr, ncyc = (2, 400) if tier == "quick" else (3, 1000)
+    traces, meta, duts = [], [], []
+    for spec in el.run_configs(tier):
+        cfg = el.contract_cfg(spec)
+        allc = []
+        m = el.model_cfg(spec)
+        for k in range(ntr):
+            sched = el.random_schedule(rnd, spec, ncyc, rnd.choice([0.05, 0.2, 0.5]), rnd.choice([0.2, 0.5, 0.8]))
+            try:
+                reset, cases = l2.run_cases(FAMILY.factory_path, spec, el.LANE.proj_path, sched)
+                ev = [[c[1], c[2]] for c in cases]
+                allc += cases
+            except KeyError as ex:      # a modelled register is gone: the run is still judged by the contract
+                if not any(d["clause"].startswith("Projection") for d in l2state["drifts"]):
+                    l2state["drifts"].append(_projection_drift(spec, ex))
+                m = None
+                ev = linear_replay(FAMILY.factory_path, spec, sched, shim=FAMILY.shim)
+            traces.append({"cfg": cfg, "ev": ev})
+            meta.append(spec)
+        if m is not None:
+            duts.append({"spec": spec, "m": m, "reset": reset, "cases": allc})
+    fails, st = tracecheck.validate(FAMILY.trace_module, traces, INVS)
+    report.add(traces_validated_against_impl=len(traces), trace_states=st["states"], manager_run_cycles=sum(len(t["ev"]) for t in traces))
+    report.sample({"manager_trace_head": {"dut": FAMILY.describe(meta[0]), "first_cycles": traces[0]["ev"][:4]}})
+    for f in fails:
+        spec = meta[f["tid"]]
+        tr = traces[f["tid"]]
+        sched = [e[0] for e in tr["ev"][:f["l"]]]
+        report.violation({"dut": spec, "clause": f["clause"]},
+                         {"family": FAMILY.graph_module, "factory": FAMILY.factory_path, "spec": spec,
+                          "cfg": tr["cfg"], "schedule": sched, "trace_module": FAMILY.trace_module,
+                          "trace_invariants": INVS, "observed": tr["ev"][:f["l"]], "clause": f["clause"]},
+                         "%s violated by %s in a recorded trace at cycle %s" % (f["clause"], FAMILY.describe(spec), f["l"]))
+    n, dr = el.conform(el.LANE, el.reshape_duts(duts), notes=l2state["notes"])
+    l2state["run_duts"] += len(duts)
+    l2state["run_cases"] += n
+    l2state["drifts"] += dr
+
+
+# ----------------------------------------------------------------------------- L2 lane (DESIGN.md section 9)
+def _l2_on_accept(state):
+    def cb(gl):
+        try:
+            duts = el.reshape_duts(l2.graph_cases(gl, el.LANE))
+        except KeyError as ex:          # a register of the model is not in the netlist any more: drift, not a failure
+            state["drifts"].append(_projection_drift(gl.duts[0].spec, ex))
+            return
+        n, dr = el.conform(el.LANE, duts, notes=state["notes"])
+        state["graph_cases"] += n
+        state["graph_duts"] += len(duts)
+        state["drifts"] += dr
+    return cb
+
+
+def run_l2(report, tier, seed, state):
+    """(a) graph conformance happened in the G-mode batches, run conformance in run_manager_tmode (state);
+    (b) M-mode: model x Env x the clauses of the contract for managers with 4 - 6 sources; (c) drift notes; a drifting
+    DUT class is explored against the L1 contract at the thorough tier's parameters."""
+    report.add(l2_model={"module": "event/EventModel (+ csrbank/CsrBankModel)", "graph_duts_conformant": state["graph_duts"],
+                         "graph_edges_judged": state["graph_cases"], "run_duts": state["run_duts"],
+                         "run_cycles_judged": state["run_cases"]})
+    mcfgs = el.mmode_configs(tier)
+    try:
+        res = l2.mmode(el.LANE.m_module, [{"c": x["c"], "m": x["m"], "env": x["env"]} for x in mcfgs], INVS, [],
+                       timeout=1500 if tier == "quick" else 3600, include=el.INCLUDE)
+    except MachineryError as ex:        # the lane never fails a check: TLC killed / timed out on the model
+        report.note("L2 M-mode (event) could not be evaluated: %s" % str(ex).split("\n")[0][:200])
+        res = None
+    if res is None:
+        for t in state["notes"]:
+            report.note(t)
+        l2.report_drifts(report, el.LANE, state["drifts"][:5])
+        return
+    report.add(states=res.distinct, transitions=res.generated)
+    report.cov["l2_model"].update({"mmode_configs": len(mcfgs), "mmode_states": res.distinct,
+                                   "mmode_transitions": res.generated, "mmode_wall_s": round(res.wall, 1),
+                                   "mmode_largest": "%d sources in %d manager(s)" % max(
+                                       (len(x["spec"]["kinds"]), max(x["spec"]["mgr"])) for x in mcfgs),
+                                   "mmode_clauses": INVS})
+    if res.violated:
+        # a counterexample on the model: it counts only if the real netlist shows it too
+        x = mcfgs[res.trace[0]["vars"]["d"] - 1]
+        prefix, _ = schedule_from_trace(res)
+        ev = linear_replay(FAMILY.factory_path, x["spec"], list(prefix), shim=FAMILY.shim)
+        tinv = [res.violated] if res.violated in INVS else INVS
+        fails, _ = tracecheck.validate(FAMILY.trace_module, [{"cfg": x["c"], "ev": ev}], tinv)
+        if fails:
+            report.violation({"dut": x["spec"], "clause": fails[0]["clause"], "gclause": res.violated},
+                             {"family": FAMILY.graph_module, "factory": FAMILY.factory_path, "spec": x["spec"], "cfg": x["c"],
+                              "schedule": [list(i) for i in prefix], "trace_module": FAMILY.trace_module,
+                              "trace_invariants": tinv, "observed": ev, "clause": fails[0]["clause"]},
+                             "%s violated by %s (found on the L2 model in M-mode, reproduced on the netlist) after %d cycles" % (
+                                 fails[0]["clause"], FAMILY.describe(x["spec"]), len(prefix)))
+        else:
+            report.note("MODEL-DRIFT event: M-mode counterexample to %s on the model of %s does not reproduce on the netlist" % (
+                res.violated, FAMILY.describe(x["spec"])))
+            report.add(l2_model_drifts=1)
+    for t in state["notes"]:
+        report.note(t)
+    l2.report_drifts(report, el.LANE, state["drifts"][:5])          # one note per drifting DUT, at most five
+    if len(state["drifts"]) > 5:
+        report.note("MODEL-DRIFT %s: %d more DUT(s) / case(s) drift" % (el.LANE.name, len(state["drifts"]) - 5))
+        report.add(l2_model_drifts=len(state["drifts"]) - 5)
+    if state["drifts"] and tier == "quick" and not report.violations:
+        # nothing has been reported yet although the code is no longer what was model-checked: look deeper
+        kinds = {k for d in state["drifts"] for k in d["spec"]["kinds"]}
+        have = {json.dumps(s_, sort_keys=True) for s_, _ in fam.configs("quick")}
+        esc = [(s_, c_) for s_, c_ in fam.configs("thorough")
+               if set(s_["kinds"]) & kinds and json.dumps(s_, sort_keys=True) not in have]
+        report.note("escalation: %d thorough-tier configuration(s) with sources of kind %s explored against the L1 contract" % (
+            len(esc[:8]), sorted(kinds)))
+        if esc:
+            run_batches(FAMILY, report, [esc[:4], esc[4:8]] if len(esc) > 4 else [esc], INVS, [], spec_budget=400000,
+                        total_budget=1200000)
+
+
 def run(prop, report, tier, seed):
     _notes_findings(report)
     cfgs = fam.configs(tier)
-    report.assume("one CSR bus operation per cycle; 8-bit CSR bus; managers with 1-3 sources; the W1C clear may "
-                  "take 1..3 cycles from the bus write to the source's clear strobe")
+    l2state = {"graph_cases": 0, "graph_duts": 0, "run_duts": 0, "run_cases": 0, "drifts": [], "notes": []}
+    report.assume("one CSR bus operation per cycle; 8-bit CSR bus; managers with 1-2 sources (every pair of kinds, one "
+                  "and two managers) explored exhaustively in G-mode, managers with 3-6 sources of mixed kinds run "
+                  "cycle by cycle in T-mode; the W1C clear may take 1..3 cycles from the bus write to the source's "
+                  "clear strobe")
     stats = run_batches(FAMILY, report, [cfgs[i:i + 6] for i in range(0, len(cfgs), 6)], INVS, [],
-                        spec_budget=400000)
+                        spec_budget=400000, total_budget=1500000, on_accept=_l2_on_accept(l2state))
     report.add(duts_explored=len(stats), clauses=INVS, per_dut=stats)
+    run_manager_tmode(report, tier, seed, l2state)
+    report.assume("L2 (specs/event/EventModel.tla on top of specs/csrbank/CsrBankModel.tla): register-level model of the "
+                  "three event sources, EventManager.do_finalize (status / pending / enable CSRs, registered pending.re, "
+                  "clear, irq), CSRBank and SharedIRQ; it gives no verdict - every edge of the complete G-mode graphs and "
+                  "every cycle of the 3-6-source runs must be reproduced by the model (else MODEL-DRIFT and escalation), "
+                  "and the model is checked against the same clauses in M-mode for 4-6 sources under narrowed "
+                  "trigger / data alphabets")
+    run_l2(report, tier, seed, l2state)
     # ---- clients: UART (harness PHY), Timer, GPIOIn(with_irq), each behind a real CSRBank
     report.assume("clients: software issues one CSR operation per cycle from the listed alphabet (cfg.ops in the "
                   "evidence samples); UART directions explored separately in G-mode (FIFO depth 2) and together in "
